@@ -1,11 +1,14 @@
 use crate::engine::{Adapter, DynProp};
 use std::sync::Arc;
 
+pub mod c05;
 pub mod c21;
 pub mod c34;
+pub mod hist;
 
 pub fn registry() -> Vec<Box<dyn DynProp>> {
     vec![
+        Box::new(Adapter(Arc::new(c05::C05))),
         Box::new(Adapter(Arc::new(c21::C21))),
         Box::new(Adapter(Arc::new(c34::C34))),
     ]
